@@ -13,22 +13,16 @@ set_option linter.unusedVariables false
 
 variable {K : Ctx}
 
-/-! ## the table on a stretch without a line feed -/
+/-! ## the table on a stretch that starts with a solid character and holds no line feed -/
 
-theorem tr_total {src : List Char} {m : Srcmap} (hm : MapOK src m) (pos : Nat) :
-    ∃ x, getSourcePosFor m pos = .ok x := by
-  obtain ⟨i, k, v, _, _, _, _, e⟩ :=
-    C05.lineOf_spec_tr m hm.wf pos (C05.clampFree_of_mono m hm.mono pos)
-  exact ⟨_, e⟩
-
-/-- WITHIN a stretch of the text without a line feed the translation is a shift -/
-theorem tr_shift {src : List Char} {m : Srcmap} (hm : MapOK src m) {a b : Nat} {w : List Char}
-    (hs : slice src a b = .ok w) (hn : '\n' ∉ w) {x : Nat} (hx : getSourcePosFor m a = .ok x) (j : Nat)
+/-- WITHIN such a stretch the translation is a shift (`C05T.MapT.shift`) -/
+theorem tr_shift {src : List Char} {m : Srcmap} (hm : C05T.MapT src m) {a b : Nat} {ch0 : Char}
+    {w : List Char} (hs : slice src a b = .ok (ch0 :: w)) (hsp : ch0 ≠ ' ') (hne : ch0 ≠ '\n')
+    (hn : '\n' ∉ w) {x : Nat} (hx : getSourcePosFor m a = .ok x) (j : Nat)
     (hj : a + j ≤ b) : getSourcePosFor m (a + j) = .ok (x + j) := by
-  obtain ⟨y, hy⟩ := tr_total hm (a + j)
-  have hno := no_key_inside hm.lf hs hn
-  have := translate_same_line m hm.wf hm.mono a (a + j) (by omega)
-    (fun i k v hi hk => hno i k v hi ⟨hk.1, by omega⟩) x y hx hy
+  obtain ⟨y, hy⟩ := C05.translate_total m hm.wf (a + j)
+  have := hm.shift a b ch0 w a (a + j) x y ((C05.slice_ok_iff _ _ _ _).mp hs) hsp hne hn
+    (Nat.le_refl _) (by omega) hj hx hy
   rw [hy, this]; congr 2; omega
 
 theorem byteLen_replicate {mk : Char} (h : mk.utf8Size = 1) (n : Nat) :
@@ -42,9 +36,10 @@ theorem run_slice {src p q : List Char} {mk : Char} {n : Nat} (hsz : mk.utf8Size
     slice src (byteLen p) (byteLen p + n) = .ok (List.replicate n mk) :=
   (C05.slice_ok_iff _ _ _ _).mpr ⟨p, q, e, rfl, by rw [byteLen_replicate hsz]⟩
 
-theorem run_notLf {src p q : List Char} {mk : Char} {n : Nat} (hsz : mk.utf8Size = 1) (hne : mk ≠ '\n')
+theorem run_solid {src p q : List Char} {mk : Char} {n : Nat} (hsz : mk.utf8Size = 1) (hne : mk ≠ '\n')
+    (hsp : mk ≠ ' ')
     (e : src = p ++ List.replicate n mk ++ q) (j : Nat) (hj : j < n) : CharSolid src (byteLen p + j) := by
-  refine ⟨p ++ List.replicate j mk, mk, List.replicate (n - j - 1) mk ++ q, ?_, ?_, hne⟩
+  refine ⟨p ++ List.replicate j mk, mk, List.replicate (n - j - 1) mk ++ q, ?_, ?_, hne, hsp⟩
   · have h1 : List.replicate n mk = List.replicate j mk ++ mk :: List.replicate (n - j - 1) mk := by
       have hn : n = j + ((n - j - 1) + 1) := by omega
       conv => lhs; rw [hn]
@@ -52,12 +47,13 @@ theorem run_notLf {src p q : List Char} {mk : Char} {n : Nat} (hsz : mk.utf8Size
     rw [e, h1]; simp
   · rw [C05.byteLen_append, byteLen_replicate hsz]
 
-/-- the delimiter run `ruleEmph` scans: a stretch without a line feed, a delimiter at each position -/
+/-- the delimiter run `ruleEmph` scans: a stretch of delimiters inside the text, a (solid) delimiter at
+    each position -/
 theorem emph_run {cfg : Cfg} {a : IState} {mk c : Char} {w : List Char} {csw : Bool} {d : DelimRun}
-    (hsz : mk.utf8Size = 1) (hne : mk ≠ '\n') (hw : a.window = .ok (c :: w)) (hc : c = mk)
+    (hsz : mk.utf8Size = 1) (hne : mk ≠ '\n') (hsp : mk ≠ ' ') (hw : a.window = .ok (c :: w)) (hc : c = mk)
     (hsd : scanDelims cfg a.src a.posMax a.pos csw = .ok d) :
-    ∃ v, slice a.src a.pos (a.pos + d.length) = .ok v ∧ '\n' ∉ v ∧
-      ∀ j, j < d.length → CharSolid a.src (a.pos + j) := by
+    (∃ k, slice a.src a.pos (a.pos + d.length) = .ok (mk :: List.replicate k mk)) ∧
+      (∀ j, j < d.length → CharSolid a.src (a.pos + j)) ∧ a.pos + d.length ≤ byteLen a.src := by
   obtain ⟨mk', rest, hsl, _, hlen⟩ := scanDelims_length hsd
   unfold IState.window at hw
   rw [hsl] at hw
@@ -71,20 +67,26 @@ theorem emph_run {cfg : Cfg} {a : IState} {mk c : Char} {w : List Char} {csw : B
     conv => lhs; rw [ht]
     simp
   rw [← hp]
-  refine ⟨_, run_slice hsz e', ?_, run_notLf hsz hne e'⟩
-  intro hm
-  exact hne (List.eq_of_mem_replicate hm).symm
+  refine ⟨⟨CodePair.runLen mk' rest, ?_⟩, run_solid hsz hne hsp e', ?_⟩
+  · have := run_slice hsz e'
+    rw [hlen, Nat.add_comm 1, List.replicate_succ] at this
+    rw [hlen, Nat.add_comm 1]; exact this
+  · have := congrArg byteLen e'
+    rw [C05.byteLen_append, C05.byteLen_append, byteLen_replicate hsz] at this
+    omega
 
-theorem tokInv_of_GM {p n : Nat} {v : List Char} {r₁ r₂ : Nat × Nat}
-    (hs : slice K.c p (p + n) = .ok v) (hn : '\n' ∉ v) (hcn : ∀ j, j < n → CharSolid K.c (p + j))
+theorem tokInv_of_GM {p n k : Nat} {mk : Char} {r₁ r₂ : Nat × Nat}
+    (hs : slice K.c p (p + n) = .ok (mk :: List.replicate k mk)) (hne : mk ≠ '\n') (hsp : mk ≠ ' ')
+    (hcn : ∀ j, j < n → CharSolid K.c (p + j)) (hb : p + n ≤ byteLen K.c)
     (h : GM K.m₁ K.m₂ p (p + n) r₁ r₂) : TokInv K n (some r₁) (some r₂) := by
-  have s1 := fun j hj => tr_shift K.ok₁ hs hn h.1 j hj
-  have s2 := fun j hj => tr_shift K.ok₂ hs hn h.2.2.1 j hj
+  have hn : '\n' ∉ List.replicate k mk := fun hm => hne (List.eq_of_mem_replicate hm).symm
+  have s1 := fun j hj => tr_shift K.ok₁ hs hsp hne hn h.1 j hj
+  have s2 := fun j hj => tr_shift K.ok₂ hs hsp hne hn h.2.2.1 j hj
   have e1 : r₁.2 = r₁.1 + n := by
     have := s1 n (Nat.le_refl _); rw [h.2.1] at this; simpa using this
   have e2 : r₂.2 = r₂.1 + n := by
     have := s2 n (Nat.le_refl _); rw [h.2.2.2] at this; simpa using this
-  refine ⟨p, r₁.1, r₂.1, by rw [← e1], by rw [← e2], fun j hj => ⟨s1 j (by omega), s2 j (by omega)⟩, hcn⟩
+  exact ⟨p, r₁.1, r₂.1, by rw [← e1], by rw [← e2], fun j hj => ⟨s1 j (by omega), s2 j (by omega)⟩, hcn, hb⟩
 
 /-! ## SECTION EMPH-MATCH: everything that unfolds matchInner / matchOuter / scanAndMatch
 
@@ -211,11 +213,11 @@ end
 theorem crStep_tok {s : Bool} {cr₁ cr₂ : Option (Nat × Nat)} {rem : Nat} (ml : Nat) (hml : ml ≤ rem)
     (h : s = true → TokInv K rem cr₁ cr₂) :
     (s = true → TokInv K (rem - ml) (crStep cr₁ ml).1 (crStep cr₂ ml).1) ∧
-    (s = true → ∃ q, getSourcePosFor K.m₁ q = .ok (crStep cr₁ ml).2 ∧
+    (s = true → ∃ q, q ≤ byteLen K.c ∧ getSourcePosFor K.m₁ q = .ok (crStep cr₁ ml).2 ∧
       getSourcePosFor K.m₂ q = .ok (crStep cr₂ ml).2) := by
   refine ⟨fun hs => ?_, fun hs => ?_⟩
-  · obtain ⟨p, a₁, a₂, rfl, rfl, hsh, hcn⟩ := h hs
-    refine ⟨p + ml, a₁ + ml, a₂ + ml, ?_, ?_, ?_, ?_⟩
+  · obtain ⟨p, a₁, a₂, rfl, rfl, hsh, hcn, hb⟩ := h hs
+    refine ⟨p + ml, a₁ + ml, a₂ + ml, ?_, ?_, ?_, ?_, by omega⟩
     · simp only [crStep]; congr 2; omega
     · simp only [crStep]; congr 2; omega
     · intro j hj
@@ -224,8 +226,9 @@ theorem crStep_tok {s : Bool} {cr₁ cr₂ : Option (Nat × Nat)} {rem : Nat} (m
     · intro j hj
       have := hcn (ml + j) (by omega)
       simpa only [Nat.add_assoc] using this
-  · obtain ⟨p, a₁, a₂, rfl, rfl, hsh, hcn⟩ := h hs
-    exact ⟨p + ml, by simpa only [crStep] using (hsh ml hml).1, by simpa only [crStep] using (hsh ml hml).2⟩
+  · obtain ⟨p, a₁, a₂, rfl, rfl, hsh, hcn, hb⟩ := h hs
+    exact ⟨p + ml, by omega, by simpa only [crStep] using (hsh ml hml).1,
+      by simpa only [crStep] using (hsh ml hml).2⟩
 
 /-- cutting `ml` delimiters off the END of the opener's range -/
 theorem cutTok_sim {s : Bool} {o₁ o₂ : Node} {ml rem : Nat} {r : Node × Nat} (hn : TokRel K s rem o₁ o₂)
@@ -256,7 +259,7 @@ theorem cutTok_sim {s : Bool} {o₁ o₂ : Node} {ml rem : Nat} {r : Node × Nat
         · exact ⟨hf _ _ hv hch, (fun h => by cases h), (fun h => by cases h)⟩
       · exact ⟨hf _ _ hv hch, (fun h => by cases h), (fun h => by cases h)⟩
   | true =>
-    obtain ⟨p, a₁, a₂, hr1, hr2, hsh, hcn⟩ := hx rfl
+    obtain ⟨p, a₁, a₂, hr1, hr2, hsh, hcn, hb⟩ := hx rfl
     have hro := hr rfl
     rw [hr1, hr2] at hro
     simp only [ROrd] at hro
@@ -269,7 +272,7 @@ theorem cutTok_sim {s : Bool} {o₁ o₂ : Node} {ml rem : Nat} {r : Node × Nat
     simp only [Except.ok.injEq] at h; subst h
     refine ⟨⟨hv, RRel.some (fun _ => hro.1) (fun _ => by omega), fun _ => ?_, hch⟩,
       fun _ => by simp only []; omega, fun _ h1 => ?_⟩
-    · refine ⟨p, a₁, a₂, ?_, ?_, fun j hj => hsh j (by omega), fun j hj => hcn j (by omega)⟩
+    · refine ⟨p, a₁, a₂, ?_, ?_, fun j hj => hsh j (by omega), fun j hj => hcn j (by omega), by omega⟩
       · simp only []; congr 2; omega
       · simp only []; congr 2; omega
     · refine ⟨p + (rem - ml), hcn _ (by omega), ?_, ?_⟩
@@ -336,8 +339,8 @@ theorem matchInner_sim {s : Bool} (fns : Nat → Option Wrap) (mk : Char) (room 
                   { val := .wrap w mk, range := some (sp₂, (crStep cr ml).2), children := post₂ } := by
                 refine NRel.mk' (RRel.some hrs hcr.2) (fun hs => ?_) hpost
                 obtain ⟨p, hp0, hp1, hp2⟩ := hsp hs hml.1
-                obtain ⟨q, hq1, hq2⟩ := hct.2 hs
-                exact ⟨p, q, _, _, _, _, rfl, rfl, hp0, hp1, hq1, hp2, hq2⟩
+                obtain ⟨q, hq0, hq1, hq2⟩ := hct.2 hs
+                exact ⟨p, q, _, _, _, _, rfl, rfl, hq0, hp0, hp1, hq1, hp2, hq2⟩
               refine ih _ _ _ _ ?_ ?_ h
               · exact MSRelC.mk' (x := { closer := _, closerRange := _, children := _, newMin := 0,
                                           innerDepth := _ }) hcr.1 hct.1
@@ -509,7 +512,7 @@ theorem scanAndMatch_sim {s : Bool} (fns : Nat → Option Wrap) (mk : Char) {roo
 /-! ## the emphasis rule (uses `scanAndMatch_sim` as a black box); the marker is one byte, not LF -/
 
 theorem ruleEmph_sim {s : Bool} {cfg : Cfg} {mk : Char} {csw : Bool} (hsz : mk.utf8Size = 1)
-    (hne : mk ≠ '\n') {a b : IState} {silent : Bool}
+    (hne : mk ≠ '\n') (hsp : mk ≠ ' ') {a b : IState} {silent : Bool}
     {r : Option Nat × IState} (rel : IRel K s a b) (h : ruleEmph cfg mk csw a silent = .ok r) :
     Sim s (ORel K s) r (ruleEmph cfg mk csw b silent) := by
   obtain ⟨m, cs, rfl, hm, hc⟩ := rel.out
@@ -517,12 +520,12 @@ theorem ruleEmph_sim {s : Bool} {cfg : Cfg} {mk : Char} {csw : Bool} (hsz : mk.u
       a.window = .ok (c :: w) → ¬ c ≠ mk → scanDelims cfg a.src a.posMax a.pos csw = .ok d →
       GM a.srcmap m a.pos (a.pos + d.length) r₁ r₂ → TokInv K d.length (some r₁) (some r₂) := by
     intro c w d r₁ r₂ hw hcm hsd hg
-    obtain ⟨v, hv1, hv2, hv3⟩ := emph_run hsz hne hw (by simpa using hcm) hsd
-    obtain ⟨k1, k2, k3⟩ := rel.ks
+    obtain ⟨⟨k, hv1⟩, hv2, hv3⟩ := emph_run hsz hne hsp hw (by simpa using hcm) hsd
+    obtain ⟨k1, k2, k3, _⟩ := rel.ks
     simp only [] at k3
-    rw [k1] at hv1 hv3
+    rw [k1] at hv1 hv2 hv3
     rw [k2, k3] at hg
-    exact tokInv_of_GM hv1 hv2 hv3 hg
+    exact tokInv_of_GM hv1 hne hsp hv2 hv3 hg
   unfold ruleEmph IState.push at h ⊢
   have hw2 : IState.window { a with srcmap := m, children := cs } = a.window := rfl
   rw [hw2]
